@@ -44,6 +44,10 @@ def run_case(case):
 
     leaves, levels = rename(SHAPES[case["shape"]], RENAMES[case["rename"]])
     counts = dict(zip(leaves, case["counts"]))
+    # rows that carry the label of an intermediate node of the hierarchy (also a known value)
+    for pname, pc in zip(list(levels[0]), case.get("parent_counts") or []):
+        if pc:
+            counts[pname] = pc
     n_nan, n_unk = case["n_nan"], case["n_unknown"]
     unknowns = ["??unknown", "??other-unknown", "??third"][:n_unk]
     xs = [v for v, c in counts.items() for _ in range(c)] + unknowns + [np.nan] * n_nan
@@ -103,7 +107,7 @@ def run_case(case):
         return out
 
     merged = 0
-    for v in leaves:
+    for v in list(counts):
         g = vo.get_group(v)
         if g != ref[v]:  # never-observed values included: their frequency is 0 < min_freq
             viol.append({"kind": "wrong-group", "what": f"value {v!r} (count {counts[v]}) is in group {g!r}, reference model says {ref[v]!r}"})
@@ -162,6 +166,9 @@ def enumerate_cases(tier, seed):
                 for mf in mfs:
                     for rn in (0, 1) if (tier == "thorough" or si < 2) else (0,):
                         cases.append({"shape": si, "counts": list(cnt), "n_nan": n_nan, "n_unknown": 0, "min_freq": mf, "unknown_handling": "raise", "rename": (rn + seed) % 2 if False else rn})
+                    if si < 2 or tier == "thorough":  # the data also holds labels of intermediate nodes
+                        for pc in ([3, 0], [8, 8], [1, 5]):
+                            cases.append({"shape": si, "counts": list(cnt), "n_nan": n_nan, "n_unknown": 0, "min_freq": mf, "unknown_handling": "raise", "rename": 0, "parent_counts": pc})
                     if n_nan == 0 or tier == "thorough":
                         for uh in ("raise", "drop"):
                             for nu in (1, 2) if (tier == "thorough" or si < 2) else (1,):
